@@ -29,7 +29,8 @@ def sibling_project(project, syntax, section, rng_style):
     explicit_self = any(key == syntax for key, _ in cfg["file_patterns"])
     if configsyn.is_toml(syntax):
         style = {"toml_literal": rng_style.random() < 0.5, "toml_inline": rng_style.random() < 0.5,
-                 "toml_eq": rng_style.choice([" = ", " = ", "=", "  =  "]), "comment": rng_style.choice([None, "bumpver settings", "tag = true"])}
+                 "toml_eq": rng_style.choice([" = ", " = ", "=", "  =  "]), "comment": rng_style.choice([None, "bumpver settings", "tag = true"]),
+                 "trailing_comments": rng_style.random() < 0.3}
         if explicit_self:
             style["version_eq"] = " = "
         if syntax == "pyproject.toml":
